@@ -124,6 +124,7 @@ var interpretable = map[string]bool{
 }
 
 var interpretFuncs = map[string]bool{
+	"crypto/elliptic.Marshal": true, "crypto/elliptic.Unmarshal": true, "crypto/elliptic.panicIfNotOnCurve": true,
 	"(*fmt.wrapError).Unwrap": true, "(*fmt.wrapError).Error": true, "(*fmt.wrapErrors).Unwrap": true, "(*fmt.wrapErrors).Error": true,
 }
 
@@ -451,6 +452,7 @@ func runPath(it *Interp, job *JobSpec, item workItem, sched *scheduler, res *Job
 	it.cborStore = map[*ByteObj]Value{}
 	it.opaqueLens = map[int32]bool{}
 	it.axiomSeen = map[*Term]bool{}
+	it.groupScalars = map[*Term][]*Term{}
 	it.forkSites = map[string]int{}
 	it.newModels = nil
 	it.prefix, it.pos = item.prefix, 0
